@@ -218,3 +218,145 @@ def extra_c11(pid, tier, seed, workdir, driver, lib):
 
 
 PROPS["C11"]["extra"] = extra_c11
+
+
+# ---------------------------------------------------------------------------------------------
+# C16, stated directly on the implementation: the history after a successful Reset gives the same
+# projected trace on the reset world and on a NEW world with the same registrations.
+# ---------------------------------------------------------------------------------------------
+_C16_FACETS = ["res", "snap", "alive", "log", "query", "locked"]
+_DEFINES = {"new": 1, "new0": 1, "copy": 1}
+
+
+def _c16_filter(prelude, suffix):
+    """keeps the definitions of the prelude that do not depend on entities of the previous epoch, and
+    the ops of the suffix that only mention entities, queries, dumps, filters and observers that
+    exist on both sides"""
+    import re as _re
+    filters, observers = set(), set()
+    pre = []
+    for l in prelude:
+        toks = l.split()
+        op = toks[0]
+        if op in ("filter", "obs"):
+            if _re.search(r"\be\d+\b", l):
+                continue
+            refs = set(_re.findall(r"\bf\d+\b", " ".join(toks[2:])))
+            if not refs <= filters:
+                continue
+            # un-registering / registering another observer from a callback needs that observer
+            orefs = set(_re.findall(r"\bo\d+\b", " ".join(toks[2:]))) - {toks[1]}
+            if not orefs <= observers:
+                continue
+            (filters if op == "filter" else observers).add(toks[1])
+        pre.append(l)
+    ents, queries, dumps = set(), set(), set()
+    keep = []
+    for l in suffix:
+        toks = l.split()
+        if not toks:
+            continue
+        op = toks[0]
+        if op in ("world", "reset"):
+            break
+        defs = set()
+        if op in ("new", "new0", "copy") and len(toks) > 1:
+            defs.add(toks[1])
+        if op in ("newb", "new0b") and len(toks) > 2 and toks[2].isdigit() and toks[1][1:].isdigit():
+            base = int(toks[1][1:])
+            defs |= {"e%d" % (base + i) for i in range(int(toks[2]))}
+        rest = " ".join(toks[1:])
+        used = set(_re.findall(r"\be\d+\b", rest)) - defs
+        qs = set(_re.findall(r"\bq\d+\b", rest))
+        ds = set(_re.findall(r"\bd\d+\b", rest))
+        fs = set(_re.findall(r"\bf\d+\b", rest))
+        os_ = set(_re.findall(r"\bo\d+\b", rest))
+        if op == "qopen" and len(toks) > 1:
+            qs.discard(toks[1])
+        if op == "dump" and len(toks) > 1:
+            ds.discard(toks[1])
+        if op == "filter" and len(toks) > 1:
+            fs.discard(toks[1])
+        if op == "obs" and len(toks) > 1:
+            os_.discard(toks[1])
+        if not used <= ents or not qs <= queries or not ds <= dumps or not fs <= filters or not os_ <= observers:
+            continue
+        keep.append(l)
+        ents |= defs
+        if op == "qopen" and len(toks) > 1:
+            queries.add(toks[1])
+        if op == "dump" and len(toks) > 1:
+            dumps.add(toks[1])
+        if op == "filter" and len(toks) > 1:
+            filters.add(toks[1])
+        if op == "obs" and len(toks) > 1:
+            observers.add(toks[1])
+    return pre, keep
+
+
+def extra_c16(pid, tier, seed, workdir, driver, lib):
+    """after Reset every history has the same outcome as on a new world with the same component
+    types registered in the same order (compared on the implementation itself)"""
+    harness = lib.build_harness(("verif",))
+    info = {"reset_vs_new_world_histories": 0, "reset_vs_new_world_ops": 0}
+    viol = []
+    profiles = ["reset", "reset"] if tier == "quick" else ["reset", "reset", "generic", "observers", "relations", "batch"]
+    for ri, profile in enumerate(profiles):
+        rc, ops, impl, err = _gen_ops(lib, harness, seed * 37 + ri + 11, 120 if tier == "quick" else 600, 140, profile, workdir, "c16-%d" % ri)
+        results = {n: res for n, res, _, _ in lib.parse_blocks(impl)}
+        batch_a, batch_b, index = [], [], []
+        for s, e in lib.sequences(ops):
+            seq = ops[s:e]
+            resets = [i for i, l in enumerate(seq) if l.split()[:1] == ["reset"] and results.get(s + i + 1, "").startswith("ok")]
+            if not resets:
+                continue
+            cut = resets[-1]
+            prefix = seq[:cut + 1]
+            prelude = [l for i, l in enumerate(prefix)
+                       if l.split()[:1] and l.split()[0] in ("world", "reg", "fill", "filter", "obs")
+                       and (l.split()[0] == "world" or results.get(s + i + 1, "").startswith("ok"))]
+            prelude, suffix = _c16_filter(prelude, seq[cut + 1:])
+            if len(suffix) < 3:
+                continue
+            index.append((len(batch_a), len(prefix), len(batch_b), len(prelude), len(suffix), prefix, prelude, suffix))
+            batch_a += prefix + suffix
+            batch_b += prelude + suffix
+        if not index:
+            continue
+        rca, outa, erra = _replay_file(harness, batch_a)
+        rcb, outb, errb = _replay_file(harness, batch_b)
+        pa = {n: (res, logs, snap) for n, res, logs, snap in lib.parse_blocks(outa)}
+        pb = {n: (res, logs, snap) for n, res, logs, snap in lib.parse_blocks(outb)}
+        for offa, lp, offb, lq, ls, prefix, prelude, suffix in index:
+            info["reset_vs_new_world_histories"] += 1
+            info["reset_vs_new_world_ops"] += ls
+            def proj(blocks, off):
+                out = []
+                for k in range(ls):
+                    b = blocks.get(off + k + 1)
+                    if b is None:
+                        out.append("#%d <missing>" % (k + 1))
+                        continue
+                    res, logs, snap = b
+                    opname = suffix[k].split()[0]
+                    out.append("#%d %s" % (k + 1, lib.canon_result(res, opname, _C16_FACETS)))
+                    out.extend(lib.group_logs(logs, _C16_FACETS))
+                    if snap is not None:
+                        out.append("  S " + snap)
+                return out
+            xa, xb = proj(pa, offa + lp), proj(pb, offb + lq)
+            if xa != xb:
+                d = next((i for i, (x, y) in enumerate(zip(xa, xb)) if x != y), min(len(xa), len(xb)))
+                viol.append({"property": pid, "kind": "reset-vs-new-world",
+                             "what": "the history after Reset behaves differently on the reset world than on a new world with the same registrations",
+                             "ops": prefix + suffix, "ops_new_world": prelude + suffix,
+                             "expected_model": xb[max(0, d - 2):d + 5], "observed_impl": xa[max(0, d - 2):d + 5],
+                             "facets": _C16_FACETS, "tags": ["verif"], "no_ops_replay": True})
+                break
+        if viol:
+            break
+    info["violations"] = viol
+    return info
+
+
+PROPS["C16"]["extra"] = extra_c16
